@@ -7,6 +7,7 @@ package main
 import (
 	"context"
 	"fmt"
+	"github.com/tdakkota/docker-logql/internal/iterators"
 	"github.com/tdakkota/docker-logql/internal/logql"
 	"regexp"
 	"sort"
@@ -75,6 +76,8 @@ type selectObs struct {
 	Deadlock  string   `json:"deadlock,omitempty"`
 	Panics    []string `json:"panics,omitempty"`
 	Labels    []string `json:"labels,omitempty"`
+	// PreOut: what the earlier selection delivered, when it is kept alive next to the main one
+	PreOut []string `json:"pre_out,omitempty"`
 }
 
 func (o selectObs) key() string {
@@ -98,6 +101,10 @@ func attrsString(a otelstorage.Attrs) string {
 type selectPreT struct {
 	Only  string // regex over container names
 	Drain int
+	// Alive: the earlier selection is not closed before the main one is made; the two are then read in turns (one record
+	// each) and the earlier one is closed last (two selections of one Querier alive at once, as the two sides of a binary
+	// operation are)
+	Alive bool
 }
 
 var selectPre *selectPreT
@@ -131,6 +138,7 @@ func runSelect(c *vsched.Ctx, ctrs []fakedocker.Container, perm []int, params lo
 			obs.Err = "new querier: " + err.Error()
 			return
 		}
+		var alive iterators.Iterator[logstorage.Record]
 		if pre := selectPre; pre != nil {
 			gg := g
 			g = nil // the earlier query runs ungated
@@ -139,8 +147,15 @@ func runSelect(c *vsched.Ctx, ctrs []fakedocker.Container, perm []int, params lo
 			if perr == nil {
 				var prec logstorage.Record
 				for k := 0; k < pre.Drain && pit.Next(&prec); k++ {
+					if pre.Alive {
+						obs.PreOut = append(obs.PreOut, fmt.Sprintf("%s@%d", prec.Body, int64(prec.Timestamp)))
+					}
 				}
-				_ = pit.Close()
+				if pre.Alive {
+					alive = pit
+				} else {
+					_ = pit.Close()
+				}
 			}
 			fake.Calls, fake.OpenOrder = nil, nil
 			fake.Opened, fake.Closed, fake.ReadBytes = make([]int, len(ctrs)), make([]int, len(ctrs)), make([]int, len(ctrs))
@@ -161,11 +176,27 @@ func runSelect(c *vsched.Ctx, ctrs []fakedocker.Container, perm []int, params lo
 				obs.IterErr = "verif: runaway iterator"
 				break
 			}
+			if alive != nil {
+				var prec logstorage.Record
+				if alive.Next(&prec) {
+					obs.PreOut = append(obs.PreOut, fmt.Sprintf("%s@%d", prec.Body, int64(prec.Timestamp)))
+				}
+			}
 		}
 		if err := iter.Err(); err != nil {
 			obs.IterErr = err.Error()
 		}
 		_ = iter.Close()
+		if alive != nil {
+			var prec logstorage.Record
+			for alive.Next(&prec) && len(obs.PreOut) < 10000 {
+				obs.PreOut = append(obs.PreOut, fmt.Sprintf("%s@%d", prec.Body, int64(prec.Timestamp)))
+			}
+			if err := alive.Err(); err != nil {
+				obs.IterErr += "earlier selection: " + err.Error()
+			}
+			_ = alive.Close()
+		}
 	})
 	obs.Deadlock = s.Deadlock
 	obs.Panics = s.Panics
